@@ -598,7 +598,11 @@ func (runInfo *runInfoStruct) invokeNilCoalescingOpExpr(expr *ast.NilCoalescingO
 	runInfo.expr = expr.LHS
 	runInfo.invokeExpr()
 	if runInfo.err == nil {
-		if !isNil(runInfo.rv) {
+		rv := runInfo.rv
+		if rv.Kind() == reflect.Interface && !rv.IsNil() {
+			rv = rv.Elem()
+		}
+		if !isNil(rv) {
 			return
 		}
 	} else {
